@@ -5,11 +5,12 @@
     the peer, re-used at will), ALL reachable states = all interleavings of any number
     of goroutines, all backend behaviours (when calls return, what they return).
 
-    Assumed (see props/C06.py): writes to the connection do not fail; sequentially
+    Send errors are part of the model (LBreak / LSendFail: the peer stops reading, every
+    later Write fails, the server logs and carries on).  Assumed (see props/C06.py): sequentially
     consistent sync.Mutex / channels; the Go scheduler eventually runs an enabled
     goroutine (liveness is stated as "some step of the server is enabled"). *)
 From Coq Require Import NArith List Bool Arith Relations String.
-From P9V Require Import Loop.Model Loop.Proofs Loop.Tie gen.LoopGen.
+From P9V Require Import Loop.Model Loop.Proofs Loop.Multi Loop.Tie gen.LoopGen.
 Import ListNotations.
 Open Scope list_scope.
 
@@ -51,15 +52,17 @@ Print Assumptions C06_final_stable.
 
 (** No unsolicited reply: the number of replies written equals the number of requests whose
     goroutine completed a send; in a quiescent state (nothing in progress) it is exactly
-    #received - #dropped - #connection-errors = #accepted + #rejected frames. *)
+    #received - #dropped - #connection-errors = #accepted + #rejected frames as long as no send
+    failed, and in general #received - #(dropped | connection error | send failed). *)
 Theorem C06_no_unsolicited : forall inp s, reachable inp s ->
   List.length (replies s) = count_pc is_done s /\
   ((forall i, final (pc s i) = true) ->
-   List.length (replies s) + count_pc is_dropped s + count_pc is_conn s = nrecv s).
+   List.length (replies s) + count_pc is_unanswered s = nrecv s /\
+   (wbroken s = false -> List.length (replies s) + count_pc is_dropped s + count_pc is_conn s = nrecv s)).
 Proof.
   intros inp s R. pose proof (reachable_Inv inp s R) as I. split.
   - now apply (replies_count inp).
-  - now apply (quiescent_count inp).
+  - intros Hq. split; [now apply (quiescent_count inp)|]. intros Hb. now apply (quiescent_count_unbroken inp).
 Qed.
 Print Assumptions C06_no_unsolicited.
 
@@ -93,11 +96,13 @@ Proof.
 Qed.
 
 (** Contiguity: the byte stream is a concatenation of whole frames, followed by a proper
-    prefix of the frame of the current holder of sendMu, for all interleavings.  (Generated
-    fact used: every send( is inside sendMu — tie_send_under_sendMu below.) *)
+    prefix of ONE frame: that of the current holder of sendMu, or - after the peer stopped
+    reading - of the send that failed half way (nothing is written after it), for all
+    interleavings.  (Generated fact used: every send( is inside sendMu - tie_send_under_sendMu.) *)
 Theorem C06_contiguous : forall inp s, reachable inp s ->
   exists pre, wire s = flat_map chunks (replies s) ++ pre /\
-    (pre = [] \/ exists h r k, sendmu s = Some h /\ pc s h = RSend r k /\ k <= S (r_extra r) /\ pre = firstn k (chunks (h, r))).
+    (pre = [] \/ exists h r k, ((sendmu s = Some h /\ pc s h = RSend r k) \/ pc s h = RDoneF r) /\
+                               k <= S (r_extra r) /\ pre = firstn k (chunks (h, r))).
 Proof. intros inp s R. apply (wire_frames inp). now apply reachable_Inv. Qed.
 Print Assumptions C06_contiguous.
 
@@ -122,13 +127,59 @@ Print Assumptions C06_intake_never_blocked.
     are blocked inside the backend, and no backend call has to return for it. *)
 Theorem C06_nonblocking : forall inp s i w t r, reachable inp s ->
   pc s i = RRun w -> nth_error inp i = Some (FReq t KOp) ->
-  exists ls s', forallb progress_label ls = true /\ run inp ls s = Some s' /\ pc s' i = RDone r /\ In (i, r) (replies s').
+  exists ls s', forallb progress_label ls = true /\ run inp ls s = Some s' /\ send_over s' i r /\
+                (wbroken s = false -> In (i, r) (replies s')).
 Proof.
   intros inp s i w t r R Hp Hf. pose proof (reachable_Inv inp s R) as I.
-  destruct (op_completes inp s i w t r I Hp Hf) as (ls & s' & H1 & H2 & H3).
-  exists ls, s'. repeat split; auto. apply (I_rep inp s' (run_Inv inp ls s s' I H2)). exact H3.
+  destruct (op_completes inp s i w t r I Hp Hf) as (ls & s' & H1 & H2 & H3 & H4).
+  exists ls, s'. repeat split; auto. intros Hb.
+  apply (send_over_unbroken inp s' i r (run_Inv inp ls s s' I H2)); [congruence|exact H3].
 Qed.
 Print Assumptions C06_nonblocking.
+
+(** ... on its own or on any other connection: the system of all connections is the product of
+    the per-connection loops (Loop/Multi.v; tie_loop_state: the loop touches only its own cs).  A step
+    of connection c is enabled, and has the same effect on c, whatever the state of the other
+    connections; it leaves them untouched; so every theorem of this file holds of each connection
+    of every reachable product state, and the completing run above exists in the product with
+    no other connection moving. *)
+Theorem C06_cross_connection_independent : forall inp c l ms1 ms2, ms1 c = ms2 c ->
+  match mexec inp c l ms1, mexec inp c l ms2 with
+  | Some a, Some b => a c = b c
+  | None, None => True
+  | _, _ => False
+  end.
+Proof. exact mexec_local. Qed.
+Theorem C06_cross_connection_untouched : forall inp c l ms ms' d, mexec inp c l ms = Some ms' -> d <> c -> ms' d = ms d.
+Proof. exact mexec_other. Qed.
+Theorem C06_cross_connection_each : forall inp ms, mreachable inp ms -> forall c, reachable (inp c) (ms c).
+Proof. exact mreachable_each. Qed.
+Theorem C06_cross_connection_nonblocking : forall inp ms c i w t r, mreachable inp ms ->
+  pc (ms c) i = RRun w -> nth_error (inp c) i = Some (FReq t KOp) ->
+  exists ls ms', forallb progress_label ls = true /\ mrun inp c ls ms = Some ms' /\ send_over (ms' c) i r /\
+                 (forall d, d <> c -> ms' d = ms d).
+Proof.
+  intros inp ms c i w t r R Hp Hf. pose proof (reachable_Inv _ _ (mreachable_each inp ms R c)) as I.
+  destruct (op_completes (inp c) (ms c) i w t r I Hp Hf) as (ls & s' & H1 & H2 & H3 & _).
+  destruct (mrun_lift inp c ls ms s' H2) as (ms' & M1 & M2 & M3).
+  exists ls, ms'. rewrite M2. auto.
+Qed.
+Print Assumptions C06_cross_connection_nonblocking.
+
+(** Send errors.  A send fails only after the peer stopped reading; from then on nothing more
+    reaches the wire; the loop neither panics nor hangs (C06_progress and C06_cleartag_never_panics
+    hold of the model WITH failing sends: a failed send is a step, the goroutine loops as usual);
+    and after the connection error (EOF) every idle goroutine leaves: once the requests in progress
+    are over, pendingWg drains and Handle returns. *)
+Theorem C06_send_fails_only_if_peer_stopped : forall inp s i r, reachable inp s -> pc s i = RDoneF r -> wbroken s = true.
+Proof. intros inp s i r R. apply (I_fail inp). now apply reachable_Inv. Qed.
+Theorem C06_nothing_written_after_break : forall inp s s', steps inp s s' -> wbroken s = true -> wire s' = wire s /\ wbroken s' = true.
+Proof. exact broken_frozen_steps. Qed.
+Theorem C06_shutdown_drains : forall inp s, reachable inp s -> shut s = true -> recvmu s = false ->
+  exists ls s', forallb intake_label ls = true /\ run inp ls s = Some s' /\ nnew s' = 0 /\ nidle s' = 0 /\
+    pc s' = pc s /\ replies s' = replies s /\ wire s' = wire s.
+Proof. intros inp s R Hs Hm. apply (shutdown_drains inp (nnew s + nidle s)); auto. now apply reachable_Inv. Qed.
+Print Assumptions C06_shutdown_drains.
 
 (** ClearTag's panic("unused tag cleared") is unreachable. *)
 Theorem C06_cleartag_never_panics : forall inp s i r, reachable inp s -> pc s i = RRet r ->
@@ -151,6 +202,8 @@ Proof. split; [exact tie_cleartag_after_handle|exact tie_cleartag_before_send]. 
 Theorem C06_tie_starttag_and_spawn_under_recvMu :
   starttag_under_recvMu = true /\ spawn_before_unlock = true /\ recv_under_recvMu = true /\ handle_after_unlock = true.
 Proof. exact (conj tie_starttag_under_recvMu (conj tie_spawn_before_unlock (conj tie_recv_under_recvMu tie_handle_after_unlock))). Qed.
+Theorem C06_tie_shared_nothing : loop_state = ["cs.ClearTag"; "cs.StartTag"; "cs.TagDone"; "cs.handle"; "cs.handleRequest"; "cs.handleRequests"; "cs.messageSize"; "cs.pendingWg"; "cs.r"; "cs.recvIdle"; "cs.recvMu"; "cs.recvShutdown"; "cs.sendMu"; "cs.server.log"; "cs.t"; "cs.tagMu"; "cs.tags"; "var dataPool"; "var msgDotLRegistry"]%string.
+Proof. exact tie_loop_state. Qed.
 Theorem C06_tie_events : handleRequest_events = expected_events.
 Proof. exact tie_events. Qed.
 Theorem C06_tie_bodies :
@@ -170,4 +223,15 @@ Definition ex_run : list label :=
 Example C06_ex : exists s, run ex_inp ex_run init = Some s /\
   replies s = [(2, mkReply RErr 1); (0, mkReply RMatch 2)] /\ pc s 1 = RDropped /\ shut s = true /\
   wire s = [(2,0); (2,1); (0,0); (0,1); (0,2)].
+Proof. eexists. vm_compute. repeat split. Qed.
+
+(** ... and one where the peer stops reading while a reply is half written. *)
+Example C06_ex_broken : exists s,
+  run [FReq 1 KOp; FReq 2 KOp; FConn]
+      [LInc; LRecv; LStart 0; LCapture 0; LSpawn 0 rflush_reply; LReturn 0 (mkReply RMatch 2); LClear 0; LLock 0; LChunk 0;
+       LBreak; LSendFail 0;
+       LInc; LRecv; LStart 1; LCapture 1; LSpawn 1 rflush_reply; LReturn 1 (mkReply RMatch 0); LClear 1; LLock 1; LSendFail 1;
+       LInc; LRecv; LInc; LRecv; LInc; LRecv] init = Some s /\
+  replies s = [] /\ wire s = [(0, 0)] /\ torn s = [(0, 0)] /\ pc s 0 = RDoneF (mkReply RMatch 2) /\ pc s 1 = RDoneF (mkReply RMatch 0) /\
+  shut s = true /\ nnew s = 0 /\ nidle s = 0.
 Proof. eexists. vm_compute. repeat split. Qed.
